@@ -233,12 +233,12 @@ pub fn def() -> PropertyDef {
 		rule: "Profile-conformant parameter sets (explicit serials positive/non-zero/<= 20 octets, non-empty URI lists, custom OIDs distinct from standard ones) over the C02/C07/C08 spaces -> harness decoder -> predicates for each structural MUST; automatic serial explored over subject keys derived deterministically from generated seeds (Ed25519, P-256, P-384). Non-trivial = at least one extension-bearing field (certificates), every CRL/CSR/fresh-key case; the class with SHA-256 top bit set is reported.",
 		assumptions: vec!["the harness decoder; OpenSSL EC arithmetic to derive fresh keys from seeds"],
 		subs: vec![
-			prop_sub("cert", 12_000, 800_000, conformant_cert_case, check_cert_case),
-			prop_sub("auto-serial", 6_000, 300_000, || {
+			prop_sub("cert", 60_000, 800_000, conformant_cert_case, check_cert_case),
+			prop_sub("auto-serial", 30_000, 300_000, || {
 				(0u8..3, proptest::collection::vec(any::<u8>(), 32)).prop_map(|(alg, seed)| FreshKeyCase { alg, seed: Hex(seed) }).boxed()
 			}, check_fresh_key),
-			prop_sub("crl", 5_000, 300_000, || crl_case(false, true), check_crl_case),
-			prop_sub("csr", 5_000, 300_000, || csr_case(true), check_csr_case),
+			prop_sub("crl", 25_000, 300_000, || crl_case(false, true), check_crl_case),
+			prop_sub("csr", 25_000, 300_000, || csr_case(true), check_csr_case),
 		],
 	}
 }
